@@ -31,8 +31,8 @@ SURPLUS = [("get_byte",), ("get_char",), ("get_short",), ("get_three",), ("get_i
 
 def shards(tier, seed):
     if tier == "quick":
-        return [{"n": 1500, "part": p} for p in range(16)]
-    return [{"n": 15625, "part": p} for p in range(64)]
+        return [{"n": 1500, "part": p} for p in range(16)] + [{"sweep": (lo, lo + 220), "part": 100 + lo} for lo in range(0, 2200, 220)]
+    return [{"n": 15625, "part": p} for p in range(64)] + [{"sweep": (lo, lo + 1100), "part": 100 + lo} for lo in range(0, 13200, 1100)] + [{"sweep": (c - 3, c + 4), "part": 100 + c} for c in (16384, 32768, 65536)]
 
 
 def gen_case(rng):
@@ -73,6 +73,22 @@ def gen_prelude(rng, chunks):
 def run(shard, rec, tier, seed):
     ns = stage.shim()
     rng = random.Random("C06-%d-%d" % (seed, shard["part"]))
+    if "sweep" in shard:
+        # chunk-length sweep: a first and a middle chunk of every length lo..hi (one long string, plain or encoded,
+        # with y-diaeresis sprinkled in), complete / under- / over-read, followed by short chunks
+        lo, hi = shard["sweep"]
+        for L in range(lo, hi):
+            enc = L % 2 == 1
+            text = "".join("\xff" if (i % 97 == 5 or i == L - 1) and L % 3 == 0 else "abcdefgh"[i % 8] for i in range(L))
+            long_chunk = [("int", "char", 5), ("str", enc, True, text)]
+            chunks = [long_chunk, [("int", "short", 1000), ("str", not enc, False, "bcd")], long_chunk, [("int", "three", 70000)]]
+            full = (2, [("get_byte",), ("get_string",)])
+            plans = [full if L % 4 else (1, [("get_char",)] if L % 8 else []), (2, []), (L % 3, []) if L % 3 < 2 else full, (1, [("get_int",)])]
+            run_case(ns, rec, chunks, plans, L % 5 == 0, [])
+            rec.case(("sweep", L))
+            rec.count("chunk-lengths-swept")
+        rec.seen("chunk-length-ranges", "%d..%d" % (lo, hi - 1))
+        return
     for _ in range(shard["n"]):
         chunks, plans, tb = gen_case(rng)
         run_case(ns, rec, chunks, plans, tb, gen_prelude(rng, chunks))
